@@ -3,7 +3,7 @@ Liveness over schedules is not decidable statically; decided are necessary condi
 exactly how a hang is introduced: every producer wakes its consumer, the wake-up predicate is the
 complement of the wait predicate, worker results are observed, shutdown wakes everyone."""
 import re
-import core, lib
+import core, lib, lockorder
 from core import call_matches, call_names, op_place, op_local, backward_slice
 
 LEVEL = 'proof'
@@ -12,7 +12,7 @@ EXPLANATION = ('Wake-up pairing as must-pass obligations on the success paths of
                'waker are complementary comparisons against the same constant; the WaitCondvar flag is only touched under its mutex and waited for '
                'in a loop; every worker result reaches store_err; store_err and shutdown wake every waiter.')
 ASSUMPTIONS = ['termination of worker loops, fairness and throttling bounds are not decided', 'a client holding a tree read lock while blocked in a throttled commit is outside static reach (note N4)',
-               'lock-order acyclicity: see DESIGN.md (C15.4) for its status', 'unwind edges ignored']
+               'lock-order graph: lock classes are struct fields (all instances of a field are one class); bodies taking `&mut self` of the owning struct are excluded (exclusive access); LogQuery dispatch is resolved per call-site instantiation, other generic trait calls by all crate impls', 'unwind edges ignored']
 TRUSTED = ['rustc MIR construction (nightly)', 'pdb-facts driver', 'rule engine /verif/rules', 'waiter/notifier table in props/C15.py']
 
 SIGNAL = ['db::WaitCondvar::<bool>::signal']
@@ -186,3 +186,22 @@ def run(ctx):
                     det = 'store_err sites %s worker calls %s' % (se_sites, wk)
             ctx.ob('4a worker-result-stored #%d' % i, 'K6a-result-observed', oi.path, 'the spawned closure passes the worker result to store_err on every path (a worker that dies silently leaves committers throttled forever)', ok, det, oi.loc(s))
         ctx.ob('4b four-workers', 'anchor', oi.path, 'four threads are spawned, one per worker function', len(sp) == 4 and seen == workers, 'spawns %d workers %s' % (len(sp), sorted(seen)))
+
+    # ---------------------------------------------------------------- 5. lock-order graph
+    edges, modes, comps, bad, bad_self = lockorder.analyse(F)
+    ctx.info['C15.lock_order_edges'] = sorted('%s -> %s (%d sites)' % (a, b, len(w)) for (a, b), w in edges.items())
+    ctx.info['C15.lock_modes'] = {k: sorted(v) for k, v in modes.items()}
+    ctx.info['C15.lock_sccs_discharged_by_mode'] = [sorted(c) for c in comps]
+    ctx.info['C15.lock_order_excluded_exclusive_bodies'] = getattr(F, '_lockorder_excluded', [])
+    need = [('DbInner.commit_queue', 'DbInner.commit_overlay'), ('DbInner.commit_overlay', 'HashColumn.tables'), ('HashColumn.tables', 'HashColumn.reindex'),
+            ('HashColumn.tables', 'Log.overlays'), ('Log.appending', 'Log.overlays'), ('Log.reading', 'HashColumn.tables'), ('DbInner.commit_overlay', 'Log.overlays')]
+    missing = [e for e in need if e not in edges]
+    ctx.ob('5a lock-graph-built', 'anchor', '-', 'the lock-order graph was derived (>= 60 edges, the hand-confirmed backbone edges are present)', len(edges) >= 60 and not missing, '%d edges, missing %s' % (len(edges), missing))
+    for comp, sub in bad:
+        ctx.ob('5b cycle %s' % '<->'.join(sorted(comp)), 'K5-lock-order', '-', 'the lock-order graph has no cycle all of whose acquisitions can block', False,
+               'potential deadlock: ' + '; '.join('%s -> %s at %s' % (a, b, w[0]) for (a, b), w in sorted(sub.items())))
+    ctx.ob('5b no-blocking-cycle', 'K5-lock-order', '-', 'every cycle of the lock-order graph contains an acquisition that cannot block (read mode on a lock that is never write-acquired)', not bad,
+           '%d strongly connected component(s), all discharged by mode' % len(comps) if not bad else '%d blocking cycle(s)' % len(bad))
+    for a, w in bad_self:
+        ctx.ob('5c recursive %s' % a, 'K5-lock-order', '-', 'no lock class is re-acquired (in a blocking mode) while one of its guards is live', False, '; '.join(w))
+    ctx.ob('5c no-recursive-acquisition', 'K5-lock-order', '-', 'no lock class is re-acquired in a blocking mode while one of its guards is live', not bad_self, '')
